@@ -292,7 +292,9 @@ def init21_shape(repo):
         raise TranslateError("v21 _Observable.__init__: body not understood")
     g = body[1]
     gb = _nodoc(g.body)
-    guard = _u(g.test) == "'id'notinkwargs" and not g.orelse
+    # `if 'id' not in kwargs:` (an explicit id=None counts as given) or `if kwargs.get('id') is None:` (it does not)
+    guard = _u(g.test) in ("'id'notinkwargs", "kwargs.get('id')isNone") and not g.orelse
+    init21_shape.none_is_absent = _u(g.test) == "kwargs.get('id')isNone"
     calls = len(gb) == 2 and _u(gb[0]) == "id_=self._generate_id()"
     repl = len(gb) == 2 and isinstance(gb[1], ast.If) and _u(gb[1].test) == "id_isnotNone" and not gb[1].orelse \
         and "".join(_u(x) for x in _nodoc(gb[1].body)) == "self._inner['id']=id_"
@@ -350,4 +352,5 @@ def translate(repo, py="/venv/bin/python"):
         "",
     ])
     return text, {"table": d["table"], "namespace": d["namespace"], "prefs": prefs, "pick": pick,
+                  "none_is_absent": getattr(init21_shape, "none_is_absent", None),
                   "presence": gi["presence"], "value": gi["value"]}
